@@ -409,9 +409,12 @@ impl<'a> Exec<'a> {
                     bc_envelope::base::envelope::EnvelopeCase::Encrypted(m) => m.clone(),
                     _ => return Err("tamper: subject not encrypted".into()),
                 };
-                let bit = (var % 8) as u8;
                 let mut ct = msg.ciphertext().clone();
                 let mut nonce = msg.nonce().data().to_vec();
+                // which bit is flipped is a function of the element (its random nonce), not of the call: the
+                // specification gives "the same element tampered in the same field" one identity
+                let var = (nonce[0] as u64) | ((nonce[1] as u64) << 8) | ((nonce[2] as u64) << 16);
+                let bit = (var % 8) as u8;
                 let mut tag = msg.authentication_tag().data().to_vec();
                 let mut aad = msg.aad().clone();
                 match field {
@@ -596,7 +599,7 @@ impl<'a> Exec<'a> {
                     k.private.sign_with_options(&msg, k.options()).map(Envelope::new).map_err(|e| e.to_string())
                 };
                 let subject_digest = e.subject().digest().data().to_vec();
-                let absent = self.ctx.digest(&serde_json::json!(["X", 0])).map_err(|e| e.0)?.to_vec();
+                let absent = self.ctx.digest(&serde_json::json!(["X", 1])).map_err(|e| e.0)?.to_vec();
                 let good = sign(s1, &subject_digest)?;
                 let wrapped = |inner: Envelope| inner.add_assertion(known_values::NOTE, "n").wrap_envelope();
                 let obj: Envelope = match kind {
